@@ -9,6 +9,7 @@ Exit codes: 0 held / only known findings, 1 VIOLATION (after the replay gate), 2
 """
 import sys, os, json, time, subprocess, threading, queue, hashlib, shutil, signal, re
 
+SCRATCH_BASE = "/dev/shm" if os.path.isdir("/dev/shm") and os.access("/dev/shm", os.W_OK) else __import__("tempfile").gettempdir()   # scratch only: nothing a later command needs
 VERIF = os.path.dirname(os.path.abspath(__file__))
 REPO = os.environ.get("VERIF_REPO", "/repo")
 BUILD = os.environ.get("VERIF_BUILD", os.path.join(VERIF, "build"))
@@ -59,7 +60,7 @@ def run_chunk(job, tier, a, b, timeout_s, keep_stderr=None):
         cmd = job.wrapper + [simrun_path(job.variant), "--workload", job.workload, "--tier", tier, "--seeds", "%d:%d" % (cur, b), "--dual", str(job.dual)] + job.args
         if job.focus:
             cmd += ["--focus", job.focus]
-        env = dict(os.environ); env.update(job.env); env.setdefault("TMPDIR", "/dev/shm")
+        env = dict(os.environ); env.update(job.env); env.setdefault("TMPDIR", SCRATCH_BASE)
         try:
             p = subprocess.run(cmd, stdout=subprocess.PIPE, stderr=subprocess.PIPE, text=True, errors="replace", timeout=timeout_s, env=env)
             rc, out, err = p.returncode, p.stdout, p.stderr
@@ -177,9 +178,9 @@ def replay_file(path, quiet=False):
     if not os.path.exists(simrun_path(variant)):
         if not build([variant]):
             return False, "build failed"
-    tmp = os.path.join(os.environ.get("TMPDIR", "/dev/shm"), "replay_%d_%d.plan" % (os.getpid(), threading.get_ident()))
+    tmp = os.path.join(os.environ.get("TMPDIR", SCRATCH_BASE), "replay_%d_%d.plan" % (os.getpid(), threading.get_ident()))
     open(tmp, "w").write("\n".join(doc["plan"]) + "\n")
-    env = dict(os.environ); env.update(doc.get("env", {})); env.setdefault("TMPDIR", "/dev/shm")
+    env = dict(os.environ); env.update(doc.get("env", {})); env.setdefault("TMPDIR", SCRATCH_BASE)
     if doc.get("differential") or doc.get("valgrind") or doc.get("tsan_sig"):
         return replay_stage(doc, variant, tmp, env, quiet)
     try:
@@ -269,7 +270,7 @@ def crash_signature(stderr):
 def minimise_crash(job, tier, crash):
     """Orchestrator-level ddmin for plans that kill the worker (each try = a fresh process)."""
     sr = simrun_path(job["variant"])
-    env = dict(os.environ); env.update(crash.get("env", {})); env.setdefault("TMPDIR", "/dev/shm")
+    env = dict(os.environ); env.update(crash.get("env", {})); env.setdefault("TMPDIR", SCRATCH_BASE)
     # obtain the plan text: ask the worker to print it without running
     cmd = [sr, "--workload", crash["workload"], "--tier", tier, "--seeds", "%d:%d" % (crash["seed"], crash["seed"]), "--print-plan"] + (["--focus", crash["focus"]] if crash.get("focus") else [])
     p = subprocess.run(cmd, stdout=subprocess.PIPE, stderr=subprocess.PIPE, text=True, env=env)
